@@ -5,31 +5,26 @@
 import os
 ALL      = "ResumeEqFresh Stable OffsSane Emit"
 NOSTABLE = "ResumeEqFresh OffsSane Emit"
-NORESUME = "Stable OffsSane Emit"
 
 C_END = ["Stable is not checked: POptInputEndF (8) declares the end of the buffer to be the end of the input, so a",
          "verdict on a prefix is by construction not the verdict on an extension, e.g. \" \" -> (eoh,1) but",
          "\" \\n\" -> (eoh,2); \"a\" -> (eoh,1) with Name=[0,1] but \"aa\" -> (eoh,2) with Name=[0,2]."]
-C_SP = ["ResumeEqFresh is not checked: GENUINE DEFECT of ParseTokenParam with POptTokSpTermF (4), reproduced on the",
-        "real code: the separator position is computed with `if i >= offs+1 {return i-1} else {return i}` where offs",
-        "is the offset THIS call started at.  wire a=\"\"a : one call -> (ok,3); calls on a=\"\" (more,4) and then",
-        "a=\"\"a resumed at 4 -> (ok,4).  (The one-shot answer 3 is the closing quote, not a separator, either.)",
-        "It needs a resume point exactly at the token, which only a quoted value produces."]
+C_SP = ["POptTokSpTermF (4) with quoted values: the separator position returned when a new token follows the value",
+        "is `i-1` iff buf[i-1] is LWS, else i (wire a=\"\"a -> (ok,4) one-shot and resumed at 4); it does not depend on",
+        "the offset the call started at, so ResumeEqFresh holds."]
 
 # (name, kind, atoms, maxlen, flags, pcaps, starts, invariants, comment lines)
 M = []
 def add(name, kind, atoms, maxlen, flags, inv, pcaps=(0,), starts=(0, 3), comment=()):
     c = list(comment)
     if inv in (NOSTABLE,) : c += C_END
-    if inv in (NORESUME,): c += C_SP
     M.append((name, kind, atoms, maxlen, flags, pcaps, starts, inv, c))
 
 # ---- tokparam: one "structure" configuration per flag set
 add("tok_f0_semi",    "tokparam", "AtomsSemi",  6, (0,),   ALL)
 add("tok_f1_comma",   "tokparam", "AtomsComma", 6, (1,),   ALL)
 add("tok_f2_qm",      "tokparam", "AtomsQm",    6, (2,),   ALL)
-add("tok_f4_semi",    "tokparam", "AtomsSemi",  6, (4,),   ALL,
-    comment=["POptTokSpTermF without quoted values: ResumeEqFresh holds (see MC_TokParam_tok_f4_quote*.cfg)."])
+add("tok_f4_semi",    "tokparam", "AtomsSemi",  6, (4,),   ALL)
 add("tok_f8_semi",    "tokparam", "AtomsSemi",  6, (8,),   NOSTABLE)
 add("tok_f9_comma",   "tokparam", "AtomsComma", 6, (9,),   NOSTABLE)
 add("tok_f12_semi",   "tokparam", "AtomsSemi",  6, (12,),  NOSTABLE)
@@ -41,17 +36,16 @@ add("tok_f128_amp",   "tokparam", "AtomsAmp",   6, (128,), ALL)
 add("tok_f136_amp",   "tokparam", "AtomsAmp",   6, (136,), NOSTABLE)
 # ---- tokparam: quoted values
 add("tok_g0_quote2",   "tokparam", "AtomsQuote2",  6, (0, 1, 2, 16, 64), ALL)
-add("tok_gA_quote2",   "tokparam", "AtomsQuote2A", 7, (32, 128),         ALL)
-add("tok_f4_quote2",   "tokparam", "AtomsQuote2",  7, (4,),              NORESUME)
+add("tok_gA_quote2",   "tokparam", "AtomsQuote2A", 6, (32, 128),         ALL)
+add("tok_f4_quote2",   "tokparam", "AtomsQuote2",  7, (4,),              ALL, comment=C_SP)
 add("tok_g8_quote2",   "tokparam", "AtomsQuote2",  6, (8, 9, 72),        NOSTABLE)
-add("tok_f12_quote2",  "tokparam", "AtomsQuote2",  7, (12,),             NOSTABLE,
-    comment=["4+8: the resume point exactly at a token cannot occur (a=\"\" is already eoh), ResumeEqFresh holds."])
+add("tok_f12_quote2",  "tokparam", "AtomsQuote2",  7, (12,),             NOSTABLE)
 add("tok_f136_quote2", "tokparam", "AtomsQuote2A", 7, (136,),            NOSTABLE)
 add("tok_f0_quote",    "tokparam", "AtomsQuote",   6, (0,),              ALL)
-add("tok_f4_quote",    "tokparam", "AtomsQuote",   6, (4,),              NORESUME)
+add("tok_f4_quote",    "tokparam", "AtomsQuote",   6, (4,),              ALL, comment=C_SP)
 add("tok_f8_quote",    "tokparam", "AtomsQuote",   6, (8,),              NOSTABLE)
 add("tok_g0_quote3",   "tokparam", "AtomsQuote3",  6, (0, 1, 2, 64),     ALL)
-add("tok_f4_quote3",   "tokparam", "AtomsQuote3",  7, (4,),              NORESUME)
+add("tok_f4_quote3",   "tokparam", "AtomsQuote3",  7, (4,),              ALL, comment=C_SP)
 add("tok_g8_quote3",   "tokparam", "AtomsQuote3",  6, (9, 12, 72),       NOSTABLE)
 # ---- tokparam: every separator / terminator byte under every flag set; illegal bytes
 add("tok_g0_punct",    "tokparam", "AtomsPunct",   5, (0, 1, 2, 4, 16, 32, 64, 128), ALL)
@@ -63,8 +57,8 @@ add("tok_g0_badq",     "tokparam", "AtomsBadQ",    5, (0, 128),                 
 add("up_f64_qm",       "uriparams", "AtomsQm",     5, (64,), ALL,      pcaps=(0, 1, 2))
 add("up_f72_qm",       "uriparams", "AtomsQm",     5, (72,), NOSTABLE, pcaps=(0, 1, 2))
 add("up_f64_p1_qm",    "uriparams", "AtomsQm",     6, (64,), ALL,      pcaps=(1,))
-add("up_f64_names",    "uriparams", "AtomsNames",  8, (64,), ALL,      pcaps=(0, 1, 2))
-add("up_f72_names",    "uriparams", "AtomsNames",  8, (72,), NOSTABLE, pcaps=(0, 1, 2))
+add("up_f64_names",    "uriparams", "AtomsNames",  6, (64,), ALL,      pcaps=(0, 1, 2))
+add("up_f72_names",    "uriparams", "AtomsNames",  6, (72,), NOSTABLE, pcaps=(0, 1, 2))
 add("up_f64_names2",   "uriparams", "AtomsNames2", 12, (64,), ALL,     pcaps=(0, 1, 2))
 add("up_f64_lstq",     "uriparams", "AtomsLstQ",   6, (64,), ALL,      pcaps=(0, 1, 2))
 add("up_f72_lstq",     "uriparams", "AtomsLstQ",   6, (72,), NOSTABLE, pcaps=(0, 1, 2))
